@@ -195,7 +195,9 @@ func (gs GenesisState) ValidateDeposits(lzIDs map[uint64]struct{}, tokensTotalSt
 				)
 			}
 
-			if info.TotalDepositAmount.GT(tokenTotalStaking) {
+			// the balance of a native restaking asset is also moved by the client chain's
+			// rewards and slashes, which the staking total (net deposits) does not follow.
+			if !IsNST(assetID) && info.TotalDepositAmount.GT(tokenTotalStaking) {
 				return errorsmod.Wrapf(
 					ErrInvalidGenesisData,
 					"invalid deposit amount that is greater than the total staking, assetID: %s: %+v",
@@ -258,7 +260,8 @@ func (gs GenesisState) ValidateOperatorAssets(tokensTotalStaking map[string]math
 				)
 			}
 			// the sum amount of operators shouldn't be greater than the total staking amount of this asset
-			if ok && asset.Info.TotalAmount.Add(asset.Info.PendingUndelegationAmount).GT(totalStaking) {
+			// (for a native restaking asset the balances also follow the client chain's rewards)
+			if ok && !IsNST(asset.AssetID) && asset.Info.TotalAmount.Add(asset.Info.PendingUndelegationAmount).GT(totalStaking) {
 				return errorsmod.Wrapf(
 					ErrInvalidGenesisData,
 					"operator's sum amount exceeds the total staking amount for %s: %+v",
